@@ -6,8 +6,8 @@
 //! Oracle (ground truth held by the harness): a row (open message, L) exists => the stored sigma
 //! verifies for that message under the key L REGISTERED for the epoch; no sigma under two labels;
 //! honest rows survive; certificate signers all have such a row; honest quorum => certified.
-use crate::hist::{self, Run};
-use crate::sim;
+use mon_agg::hist::{self, Run};
+use mon_agg::sim;
 use mithril_aggregator::services::{SequentialSignatureProcessor, SignatureConsumer, SignatureProcessor};
 use mithril_common::entities::*;
 use mithril_common::messages::{RegisterSignatureMessageHttp, SignedEntityTypeMessage};
